@@ -501,19 +501,27 @@ sb_error_t sb_trajectory_init_from_rth_plan_entry(
         start_time + (entry->pre_delay_sec > 0 ? entry->pre_delay_sec : 0)));
 
     SB_CHECK(sb_trajectory_builder_init(&builder, scale, /* flags = */ 0));
-    SB_CHECK(sb_trajectory_builder_set_start_position(&builder, start));
+    if ((retval = sb_trajectory_builder_set_start_position(&builder, start)) != SB_SUCCESS) {
+        goto cleanup;
+    }
 
-    SB_CHECK(sb_trajectory_builder_hold_position_for(&builder, duration_msec));
+    if ((retval = sb_trajectory_builder_hold_position_for(&builder, duration_msec)) != SB_SUCCESS) {
+        goto cleanup;
+    }
 
     /* Initialize target from start */
     target = start;
 
     /* Add pre-neck */
     if (entry->pre_neck_mm || entry->pre_neck_duration_sec) {
-        SB_CHECK(sb_uint32_msec_duration_from_float_seconds(
-            &duration_msec, entry->pre_neck_duration_sec));
+        if ((retval = sb_uint32_msec_duration_from_float_seconds(
+            &duration_msec, entry->pre_neck_duration_sec)) != SB_SUCCESS) {
+            goto cleanup;
+        }
         target.z += entry->pre_neck_mm;
-        SB_CHECK(sb_trajectory_builder_append_line(&builder, target, duration_msec));
+        if ((retval = sb_trajectory_builder_append_line(&builder, target, duration_msec)) != SB_SUCCESS) {
+            goto cleanup;
+        }
     }
 
     /* Add action */
@@ -525,9 +533,13 @@ sb_error_t sb_trajectory_init_from_rth_plan_entry(
     case SB_RTH_ACTION_GO_TO_KEEPING_ALTITUDE:
         target.x = entry->target.x;
         target.y = entry->target.y;
-        SB_CHECK(sb_uint32_msec_duration_from_float_seconds(
-            &duration_msec, entry->duration_sec));
-        SB_CHECK(sb_trajectory_builder_append_line(&builder, target, duration_msec));
+        if ((retval = sb_uint32_msec_duration_from_float_seconds(
+            &duration_msec, entry->duration_sec)) != SB_SUCCESS) {
+            goto cleanup;
+        }
+        if ((retval = sb_trajectory_builder_append_line(&builder, target, duration_msec)) != SB_SUCCESS) {
+            goto cleanup;
+        }
 
         break;
 
@@ -535,9 +547,13 @@ sb_error_t sb_trajectory_init_from_rth_plan_entry(
         target.x = entry->target.x;
         target.y = entry->target.y;
         target.z = entry->target_altitude;
-        SB_CHECK(sb_uint32_msec_duration_from_float_seconds(
-            &duration_msec, entry->duration_sec));
-        SB_CHECK(sb_trajectory_builder_append_line(&builder, target, duration_msec));
+        if ((retval = sb_uint32_msec_duration_from_float_seconds(
+            &duration_msec, entry->duration_sec)) != SB_SUCCESS) {
+            goto cleanup;
+        }
+        if ((retval = sb_trajectory_builder_append_line(&builder, target, duration_msec)) != SB_SUCCESS) {
+            goto cleanup;
+        }
 
         break;
 
@@ -549,9 +565,13 @@ sb_error_t sb_trajectory_init_from_rth_plan_entry(
 
     /* Add post delay */
     if (entry->post_delay_sec > 0) {
-        SB_CHECK(sb_uint32_msec_duration_from_float_seconds(
-            &duration_msec, entry->post_delay_sec));
-        SB_CHECK(sb_trajectory_builder_hold_position_for(&builder, duration_msec));
+        if ((retval = sb_uint32_msec_duration_from_float_seconds(
+            &duration_msec, entry->post_delay_sec)) != SB_SUCCESS) {
+            goto cleanup;
+        }
+        if ((retval = sb_trajectory_builder_hold_position_for(&builder, duration_msec)) != SB_SUCCESS) {
+            goto cleanup;
+        }
     }
 
     retval = sb_trajectory_init_from_builder(trajectory, &builder);
